@@ -1009,7 +1009,7 @@ func (s *sharedEntryAttributes) validateRange(resultChan chan<- *types.Validatio
 // validateLeafListMinMaxAttributes validates the Min-, and Max-Elements attribute of the Entry if it is a Leaflists.
 func (s *sharedEntryAttributes) validateLeafListMinMaxAttributes(resultChan chan<- *types.ValidationResultEntry) {
 	if schema := s.schema.GetLeaflist(); schema != nil {
-		if schema.MinElements > 0 {
+		if schema.MinElements > 0 || schema.GetMaxElements() > 0 {
 			if lv := s.leafVariants.GetHighestPrecedenceRemaining(); lv != nil {
 				tv, err := lv.Update.Value()
 				if err != nil {
@@ -1021,7 +1021,7 @@ func (s *sharedEntryAttributes) validateLeafListMinMaxAttributes(resultChan chan
 						resultChan <- types.NewValidationResultEntry(lv.Owner(), fmt.Errorf("leaflist %s defines %d min-elements but only %d elements are present", s.Path().String(), schema.MinElements, len(val.GetElement())), types.ValidationResultEntryTypeError)
 					}
 					// check maxelements if set
-					if len(val.GetElement()) > int(schema.GetMaxElements()) {
+					if schema.GetMaxElements() > 0 && uint64(len(val.GetElement())) > schema.GetMaxElements() {
 						resultChan <- types.NewValidationResultEntry(lv.Owner(), fmt.Errorf("leaflist %s defines %d max-elements but %d elements are present", s.Path().String(), schema.GetMaxElements(), len(val.GetElement())), types.ValidationResultEntryTypeError)
 					}
 				}
